@@ -238,9 +238,15 @@ pub struct LoginObs {
 /// Login up to (and including) Login Success. intent: 2 Login, 3 Transfer. stop_after: "handshake" | "loginstart" |
 /// "session" | "authcookie" | "encresp" | "success".
 pub async fn login(t: &mut Tcp, intent: i32, name: &str, uuid: u128, auth_cookie: Option<Vec<u8>>, stop_after: &str, wait: Duration) -> LoginObs {
+    login_to(t, intent, "play.example.org", 25565, name, uuid, auth_cookie, stop_after, wait).await
+}
+
+/// `login` with the host name and port the client says it connected with.
+#[allow(clippy::too_many_arguments)]
+pub async fn login_to(t: &mut Tcp, intent: i32, host: &str, port: u16, name: &str, uuid: u128, auth_cookie: Option<Vec<u8>>, stop_after: &str, wait: Duration) -> LoginObs {
     let mut o = LoginObs { asked_auth_cookie: false, enc_req_auth: None, login_success: None, reached: "start".into() };
     let secret = [0x42u8; 16];
-    if !t.send_frame(0, &body_handshake(770, "play.example.org", 25565, intent)).await {
+    if !t.send_frame(0, &body_handshake(770, host, port, intent)).await {
         return o;
     }
     o.reached = "handshake".into();
